@@ -899,7 +899,7 @@ pub fn run(cfg: &Cfg) -> Outcome {
     let local = run_parallel(
         cfg,
         32,
-        RunLimits { cases: n, wall: Duration::from_secs(if cfg.thorough() { 840 } else { 100 }) },
+        RunLimits { cases: n, wall: Duration::from_secs(if cfg.thorough() { 780 } else { 100 }) },
         |l, rng, idx| one_case(cfg, l, rng, idx, &oparse),
     );
     let watchdogs = local.counters.get("watchdog_fired").copied().unwrap_or(0);
